@@ -189,25 +189,27 @@ def parse(b):
     r = parse_all(b)
     return r if r is not None else []
 
-def offsets(b, base=0, depth=0, out=None):
+def offsets(b, base=0, depth=0, out=None, budget=None):
     """[(start, hdr_len, content_len, tag, depth)] for every TLV found by a tolerant recursive descent
-    (also descends into OCTET/BIT STRINGs that contain well-formed DER)"""
+    (also descends into OCTET/BIT STRINGs that contain well-formed DER); at most ~3000 nodes"""
     out = [] if out is None else out
+    budget = [3000] if budget is None else budget
     i = 0
-    while i < len(b):
+    while i < len(b) and budget[0] > 0:
         r = _parse_one(b, i, 99)       # no recursion here; we recurse ourselves
         if r is None:
             break
         node, j = r
+        budget[0] -= 1
         hdr = 1 + len(node.lenbytes)
         out.append((base + i, hdr, len(node.content), node.tag, depth))
-        if depth < 16 and len(node.content) >= 2:
+        if depth < 16 and 2 <= len(node.content) and budget[0] > 0:
             if node.tag & 0x20:
-                offsets(node.content, base + i + hdr, depth + 1, out)
-            elif node.tag == 0x04 and parse_all(node.content, 99) is not None:
-                offsets(node.content, base + i + hdr, depth + 1, out)
-            elif node.tag == 0x03 and parse_all(node.content[1:], 99) is not None:
-                offsets(node.content[1:], base + i + hdr + 1, depth + 1, out)
+                offsets(node.content, base + i + hdr, depth + 1, out, budget)
+            elif node.tag == 0x04 and len(node.content) < 4096 and parse_all(node.content, 99) is not None:
+                offsets(node.content, base + i + hdr, depth + 1, out, budget)
+            elif node.tag == 0x03 and len(node.content) < 4096 and parse_all(node.content[1:], 99) is not None:
+                offsets(node.content[1:], base + i + hdr + 1, depth + 1, out, budget)
         i = j
     return out
 
